@@ -674,6 +674,39 @@ def wbuf_lifetime(V, **params):
     return c03.wbuf(V, **params)
 
 
+def lr_sizes(V, rank):
+    """the size every allocator is given for a tensor is the number of bytes the tensor occupies: the REAL Tensor.storage_size() for a symbolic
+    storage shape (dimensions may be 0: an empty tensor still takes one allocation quantum, a zero-size range lets Greedy reset its scan) and
+    element type; it agrees with storage_size_for_shape(); and a size query before a rewrite widens the element type (clone + dtype change, as
+    the LeakyReLU / SquaredDifference lowerings do) does not leave the old element size behind."""
+    import ethosu.vela.tensor as tensor
+    import ethosu.vela.numeric_util as nu
+    from ethosu.vela.tensor import Tensor
+    from ethosu.vela.data_type import DataType
+
+    dims = [V.int("d%d" % i, 0, 64) for i in range(rank)]
+    dt = V.choice("dtype", [DataType.int8, DataType.int16, DataType.int32])
+    t = Tensor([1] * rank, dt, "t")
+    t.storage_shape = list(dims)
+    with core.shims((tensor, {"min": core.smin, "max": core.smax, "int": core.sint}), (nu, {"int": core.sint, "math": rat.SMATH})):
+        size = t.storage_size()
+        size2 = t.storage_size_for_shape(list(dims))
+        # the rewrite: an 8-bit tensor that has been sized is cloned and the clone becomes 32-bit
+        t8 = Tensor([1, 4, 4, 4], DataType.int8, "a")
+        before = t8.storage_size()
+        c = t8.clone("_wide", set_unique=True)
+        c.dtype = DataType.int32
+        after = c.storage_size()
+    elems = L(1)
+    for d in dims:
+        elems = elems * L(d)
+    raw = elems * (dt.size_in_bits() // 8)
+    want = z3.If(raw == 0, 16, ((raw + 15) / 16) * 16)
+    return [("the size is the bytes of the storage shape, at least one quantum, in whole quanta", L(size) == want),
+            ("storage_size_for_shape agrees", L(size2) == want),
+            ("a widened clone reports its own element size", int(before) == 64 and int(after) == 256)]
+
+
 def report(V):
     """the footprint a subgraph reports is the sum of what was allocated into it: the REAL allocate_tensors (the allocators themselves stubbed to a
     symbolic total) called three times for one subgraph - feature maps, then constants into the SAME memory area (Sram-only modes), then a call
@@ -749,7 +782,7 @@ def address_map(V, nsteps):
     return cl
 
 
-FUNCS = {"report": report, "address_map": address_map, "ifm_fuse": ifm_fuse, "wbuf_lifetime": wbuf_lifetime, "lr_extract": lr_extract, "hc_indices": hc_indices, "hc_wrapper": hc_wrapper, "hc_search_step": hc_search_step, "hc_fix_perm": hc_fix_perm,
+FUNCS = {"lr_sizes": lr_sizes, "report": report, "address_map": address_map, "ifm_fuse": ifm_fuse, "wbuf_lifetime": wbuf_lifetime, "lr_extract": lr_extract, "hc_indices": hc_indices, "hc_wrapper": hc_wrapper, "hc_search_step": hc_search_step, "hc_fix_perm": hc_fix_perm,
          "hc_allocate": hc_allocate, "greedy_step": greedy_step, "greedy_whole": greedy_whole, "verify_rejects": verify_rejects,
          "linear": linear, "lr_alignment": lr_alignment, "dispatch": dispatch}
 
@@ -830,6 +863,8 @@ def instances(tier, seed):
                                         params=dict(n=n, share=list(share), aligns=list(av[:n]))))
     out.append(dict(key="lr_alignment", fn="lr_alignment", params=dict(first=None, second=None)))
     out.append(dict(key="report", fn="report", params={}))
+    for r in (1, 2, 3):
+        out.append(dict(key="lr_sizes/%d" % r, fn="lr_sizes", params=dict(rank=r)))
     for n in (2, 3):
         out.append(dict(key="address_map/%d" % n, fn="address_map", params=dict(nsteps=n), weight=20))
     for shape in ("flat", "while", "nested2"):
